@@ -5,6 +5,7 @@ import pyspec
 
 ID = "C09"
 TARGETS = ["Properties/C09.vo"]
+COQCHK_NOREC = True     # coqchk of the full closure (Interval, Reals) takes > 45 min without vm: only the property file is re-checked
 FIELDS = ["key", "gs", "trk", "vr"]
 NEED_RELEASE = True
 EXPLANATION = ("theorems: vertical rate and velocity decoders = formulas on the bit fields for every frame; ground speed is floor sqrt; the "
@@ -65,6 +66,16 @@ def gen(seed, tier):
                 frames = [g.f_df17(icao, me_velocity(r.choice([1, 2, 3, 4, 0]), 0, r.randint(0, 1023), 0, r.randint(0, 1023), 0, sign, c)) for c in codes[i:i + 64]]
                 cases.append(M("C09-r%d" % n, {}, path, frames))
                 n += 1
+    # the velocity decoder of the IMPLEMENTATION swept exhaustively (kind V, judged by the oracle alone): every pair of
+    # 10-bit magnitude fields x both sign bits each x subtype 1/2 -- 4.2 million frames (subtype 1) in the quick tier, 8.4 million
+    # (both subtypes) in the thorough tier; both constructors
+    chunks = list(range(0, 1024, 64))
+    for lo in chunks:
+        for st in ((1, 2) if tier != "quick" else (1,)):
+            for sew in (0, 1):
+                for sns in (0, 1):
+                    path = "m" if (lo // 64 + sew + sns) % 2 else "d"
+                    cases.append(("C09-V%d-%d-%d-%d" % (st, sew, sns, lo), "V", "-", "%d:%d:%d:%d:%d:%s" % (st, sew, sns, lo, lo + 64, path)))
     # through the pipeline: first and n-th frame, +/-U
     for i in range(150 if tier == "quick" else 1500):
         icao = r.choice(ICAOS)
@@ -122,6 +133,33 @@ def oracle(parts, outcome, obs):
     if outcome.replace("+slow", "") != "ok":
         return "outcome %s" % outcome
     import sqcmp
+    if parts[1] == "V":
+        st, sew, sns, lo, hi = [int(x) for x in parts[3].split(":")[:5]]
+        toks = obs.split(" ")
+        mul = 4 if st == 2 else 1
+        deg, atan2, isqrt, floor = math.degrees, math.atan2, math.isqrt, math.floor
+        i = 0
+        for vew in range(lo, hi):
+            for vns in range(1024):
+                tok = toks[i]
+                i += 1
+                if vew == 0 or vns == 0:
+                    if tok != "-.-":
+                        return "Vew field %d, Vns field %d (a field of 0 is no information): shows %s" % (vew, vns, tok)
+                    continue
+                a, b = vew - 1, vns - 1
+                gs = isqrt(a * a + b * b) * mul
+                if a == 0 and b == 0:
+                    if not tok.endswith(".%d" % gs):
+                        return "fields %d/%d: ground speed in %s, expected %d" % (vew, vns, tok, gs)
+                    continue
+                ang = deg(atan2(-a if sew else a, -b if sns else b))
+                t = floor(ang) % 360
+                if tok != "%d.%d" % (t, gs):
+                    if abs(ang - round(ang)) < 1e-9 and tok in ("%d.%d" % ((round(ang) - 1) % 360, gs), "%d.%d" % (round(ang) % 360, gs)):
+                        continue
+                    return "subtype %d, E/W sign %d field %d, N/S sign %d field %d: shows track.speed %s, expected %d.%d" % (st, sew, vew, sns, vns, tok, t, gs)
+        return None
     if parts[1] == "M":
         frames = parts[3].split(":", 1)[1].split(",")
         rows = obs.split("#")
@@ -151,3 +189,8 @@ CLAIM = {
     "note": "C09_track_floor_atan2 depends on the standard library's real-number axioms (listed in the evidence). libm's atan2().to_degrees().floor() is tied to the proved integer procedure by execution only.",
     "technique": "Coq proof: RangeSpec rewriting for the decoders; Interval-proved tan enclosures + reflection gap check for floor(atan2); differential runs",
 }
+
+
+def skip_case(parts, impl, model):
+    """kind V is an implementation-only sweep (the model's decoder is covered by the theorems and the sampled cases)"""
+    return parts[1] == "V"
